@@ -202,6 +202,10 @@ def strategy():
             for _ in range(draw(st.integers(1, 2))):
                 env.append({"at": draw(st.sampled_from([0.005, 0.012, 0.03, 0.1, 0.3])), "ev": "trim",
                             "log": draw(st.integers(0, nparts - 1)), "frac": draw(st.sampled_from([0.3, 0.6, 1.0]))})
+        if draw(st.integers(0, 4)) == 0:
+            at = draw(st.sampled_from([0.0, 0.01, 0.05, 0.2, 0.6]))
+            env.append({"at": at, "ev": "leader_gone", "topic": "t0", "partition": draw(st.integers(0, nparts - 1)),
+                        "back_at": at + draw(st.sampled_from([0.03, 0.2, 0.8]))})
         if nodes > 1:
             for _ in range(draw(st.integers(0, 2))):
                 env.append({"at": draw(st.sampled_from([0.01, 0.05, 0.2, 0.6])), "ev": "move_leader", "topic": "t0",
